@@ -368,6 +368,63 @@ def file_cases(tb, rnd, verdicts):
     return cases, hist
 
 
+def bare_extensions(tb):
+    """a module that defines `extension NAME;` does not make NAME a keyword: the bare (unprefixed) NAME is an
+    unknown keyword wherever the table does not know it -- whether the definition stands before or after the
+    use, in the same or another module; only the prefixed form goes to the extension list"""
+    cases = []
+    hist = dict(bare_extension=0)
+    paths = tb.paths()
+
+    def with_top(forest, where, item):
+        top = forest[0]
+        subs = ([item] + top[2]) if where == "first" else (top[2] + [item])
+        return [(top[0], top[1], subs)] + forest[1:]
+
+    for (ty, kw), chain in sorted(paths.items()):
+        req = tb.required_keys(ty, kw)
+        base = [tb.minimal(k, "r") for k in req]
+        childkeys = {f["key"] for f in tb.children(ty)}
+        kwname = next(k for k in ("config", "enum", "input", "bit") if k not in childkeys)
+        for name in ("myext", kwname):
+            defn = ("extension", name, [])
+            defn_arg = ("extension", name, [("argument", "a", [("yin-element", "true", [])]), ("description", "d", [])])
+            uses = [(name, "u", []), (name, None, []), (name, "u", [("description", "d", [])])]
+            for u in uses:
+                inner = [tb.wrap(chain, (kw, "n", base + [u]))]
+                cases.append(case_line(with_top(inner, "first", defn)))          # defined before the use
+                cases.append(case_line(with_top(inner, "last", defn)))           # defined after the use
+                hist["bare_extension"] += 2
+            u = uses[0]
+            inner = [tb.wrap(chain, (kw, "n", [u] + base))]
+            cases.append(case_line(with_top(inner, "first", defn_arg)))
+            # two definitions, use between them; definition and prefixed use (fine); prefixed and bare together
+            cases.append(case_line(with_top(with_top(inner, "first", defn), "last", ("extension", "other", []))))
+            pre = [tb.wrap(chain, (kw, "n", base + [("p:" + name, "u", [])]))]
+            cases.append(case_line(with_top(pre, "first", defn)))
+            both = [tb.wrap(chain, (kw, "n", base + [("p:" + name, "u", []), (name, "u", [])]))]
+            cases.append(case_line(with_top(both, "first", defn)))
+            # defined in another module of the same text (before / after)
+            other = ("module", "defs", [tb.minimal("namespace", "r"), tb.minimal("prefix", "r"), defn])
+            inner = [tb.wrap(chain, (kw, "n", base + [u]))]
+            cases.append(case_line([other] + inner))
+            cases.append(case_line(inner + [other]))
+            hist["bare_extension"] += 6
+    # the definition itself used bare inside an extension statement, and nested deep under Value statements
+    ns, pf = tb.minimal("namespace", "r"), tb.minimal("prefix", "r")
+    d = ("extension", "myext", [])
+    deep = ("description", "d", [("description", "e", [("myext", "x", [])])])
+    for top in ("module", "submodule"):
+        reqs = [tb.minimal(k, "r") for k in tb.required_keys(tb.struct_for(top), top)]
+        cases.append(case_line([(top, "m", reqs + [d, ("extension", "second", [("myext", "x", [])])])]))
+        cases.append(case_line([(top, "m", reqs + [d, ("leaf", "l", [("type", "string", []), deep])])]))
+        cases.append(case_line([(top, "m", reqs + [d, ("leaf", "l", [("type", "string", []), ("default", "v", [("myext", "x", [])])])])]))
+        cases.append(case_line([(top, "m", [d] + reqs + [("myext", "x", [])])]))
+        cases.append(case_line([(top, "m", [d] + reqs + [("p:myext", "x", [])])]))
+        hist["bare_extension"] += 5
+    return cases, hist
+
+
 def random_tree(tb, rnd, kw, depth, budget, q):
     """q = noise: probability of a junk child / an omitted required child / a repeated single child"""
     ty = tb.struct_for(kw)
@@ -388,6 +445,9 @@ def random_tree(tb, rnd, kw, depth, budget, q):
     n = rnd.choice([0, 1, 2, 3, 4, 6, 8])
     for _ in range(n):
         r = rnd.random()
+        if getattr(tb, "bare", None) and rnd.random() < 0.04:
+            want.append(rnd.choice([tb.bare, "p:" + tb.bare]))
+            continue
         if r < q:
             want.append(rnd.choice(PSEUDO + ["bogus", "a:b:c", "module", "submodule"] + sorted(tb.names)))
         elif r < q + 0.15 and (has_ext or rnd.random() < q):
@@ -417,8 +477,13 @@ def randoms(tb, rnd, n):
             r = rnd.random()
             kw = "module" if r < 0.6 else "submodule" if r < 0.9 or q == 0.0 else \
                 rnd.choice(sorted(tb.names) + ["bogus", "x:y"])
+            tb.bare = "rx" if rnd.random() < 0.25 else None
             t = random_tree(tb, rnd, kw, rnd.choice([1, 2, 3, 4, 5]), [rnd.choice([6, 15, 40, 80])], q)
-            forest.append((t[0], "top%d" % j, t[2]))
+            subs = t[2]
+            if tb.bare and tb.struct_for(kw) == tb.struct_for("module"):
+                subs = [("extension", "rx", [])] + subs if rnd.random() < 0.7 else subs + [("extension", "rx", [])]
+            tb.bare = None
+            forest.append((t[0], "top%d" % j, subs))
         cases.append(case_line(forest))
     return cases
 
@@ -454,6 +519,9 @@ def gen(tier, seed):
     del _FORESTS[:]
     cases, hist = sweep(tb)
     w, h2 = wide(tb)
+    cases += w
+    hist.update(h2)
+    w, h2 = bare_extensions(tb)
     cases += w
     hist.update(h2)
     nr = 3000 if tier == "quick" else 60000
@@ -508,7 +576,10 @@ def run(res, tier, seed, proof):
              "keywords; non-trivial = rejected, or built with at least three nodes.  On rejection the line:col "
              "prefix of the Go error (or its absence) is compared with the position of the statement the model "
              "reports (C16, third sentence, for builder errors).  Wide statements: 31..100 substatements of one "
-             "repeated keyword for every (struct, repeated field) of the table, interleaved mixes.  File leg: "
+             "repeated keyword for every (struct, repeated field) of the table, interleaved mixes.  Bare extension "
+             "names: for every struct, a module defining `extension NAME` (before / after the use, in another "
+             "module, NAME also a YANG keyword of another context) and NAME used unprefixed -> unknown field, "
+             "prefixed -> extension list.  File leg: "
              "faulty and good texts written to a file and read with Modules.Read twice, then by module name "
              "through the search path, then once more after the file was corrected (or broken) on disk -- a "
              "rejected source must be rejected every time at the same position, a Read without error must show "
